@@ -29,6 +29,7 @@ fn main() {
             "c08" => c08::replay(&case, &mut rep),
             "c09" => c09::replay(&case, &mut rep),
             "c10" => c10::replay(&case, &mut rep),
+            "c13e" => c13e::replay(&case, &mut rep),
             "c11" => c11::replay(&case, &mut rep),
             "c18" => c18::replay(&case, &mut rep),
             _ => panic!("unknown"),
